@@ -21,20 +21,29 @@ use verif_harness::{Cfg, r#gen::Rng, guarded, out::Out, out::hex};
 
 type Rgb = [u8; 3];
 
-/// Watchdog: every call into the implementation runs in a worker thread; when it does not come back
-/// within `CASE_TIMEOUT` the case is reported as non-terminating (the stuck thread cannot be killed, it
-/// is abandoned; after `MAX_HUNG` such cases the remaining cases are skipped and the process exits once
-/// the statistics are written).
+/// Watchdog: every call into the implementation runs in a worker thread.  When it does not come back
+/// within `CASE_TIMEOUT` (which a loaded machine alone can cause) the same case is run once more with the
+/// long limit; only if that expires too is the case reported as non-terminating.  A case that needed the
+/// second run is counted in `extra.watchdog.slow_cases_rerun_ok`.  A stuck thread cannot be killed: it is
+/// abandoned, the remaining cases are skipped (`MAX_HUNG`) and the process exits once the statistics are
+/// written.
 const CASE_TIMEOUT: std::time::Duration = std::time::Duration::from_secs(4);
-const MAX_HUNG: usize = 2;
-static HUNG: std::sync::atomic::AtomicUsize = std::sync::atomic::AtomicUsize::new(0);
+const MAX_HUNG: usize = 1;
+static HUNG: AtomicUsize = AtomicUsize::new(0);
+static SLOW_RERUN_OK: AtomicUsize = AtomicUsize::new(0);
+/// long limit in seconds: 40 (quick, keeps a hanging implementation within the quick budget), 120 (thorough)
+static LONG_SECS: AtomicUsize = AtomicUsize::new(40);
+use std::sync::atomic::{AtomicUsize, Ordering::SeqCst};
 
 fn too_many_hung() -> bool {
-    HUNG.load(std::sync::atomic::Ordering::SeqCst) >= MAX_HUNG
+    HUNG.load(SeqCst) >= MAX_HUNG
 }
 
-/// `Some(Ok(v))` finished, `Some(Err(()))` panicked, `None` did not terminate in time
-fn watched<T: Send + 'static>(f: impl FnOnce() -> T + Send + 'static) -> Option<Result<T, ()>> {
+fn no_answer() -> Value {
+    json!(format!("no answer within {} s and, re-run alone, within {} s", CASE_TIMEOUT.as_secs(), LONG_SECS.load(SeqCst)))
+}
+
+fn attempt<T: Send + 'static>(f: impl FnOnce() -> T + Send + 'static, limit: std::time::Duration) -> Option<Result<T, ()>> {
     let (tx, rx) = std::sync::mpsc::channel();
     let spawned = std::thread::Builder::new().stack_size(16 << 20).spawn(move || {
         let _ = tx.send(guarded(f));
@@ -42,13 +51,27 @@ fn watched<T: Send + 'static>(f: impl FnOnce() -> T + Send + 'static) -> Option<
     if spawned.is_err() {
         return Some(Err(()));
     }
-    match rx.recv_timeout(CASE_TIMEOUT) {
+    match rx.recv_timeout(limit) {
         Ok(r) => Some(r),
-        Err(std::sync::mpsc::RecvTimeoutError::Timeout) => {
-            HUNG.fetch_add(1, std::sync::atomic::Ordering::SeqCst);
+        Err(std::sync::mpsc::RecvTimeoutError::Timeout) => None,
+        Err(std::sync::mpsc::RecvTimeoutError::Disconnected) => Some(Err(())),
+    }
+}
+
+/// `Some(Ok(v))` finished, `Some(Err(()))` panicked, `None` did not terminate (twice)
+fn watched<T: Send + 'static>(f: impl FnOnce() -> T + Clone + Send + 'static) -> Option<Result<T, ()>> {
+    if let Some(r) = attempt(f.clone(), CASE_TIMEOUT) {
+        return Some(r);
+    }
+    match attempt(f, std::time::Duration::from_secs(LONG_SECS.load(SeqCst) as u64)) {
+        Some(r) => {
+            SLOW_RERUN_OK.fetch_add(1, SeqCst);
+            Some(r)
+        }
+        None => {
+            HUNG.fetch_add(1, SeqCst);
             None
         }
-        Err(std::sync::mpsc::RecvTimeoutError::Disconnected) => Some(Err(())),
     }
 }
 
@@ -114,7 +137,7 @@ fn run_kd(out: &mut Out, pal: &[RGBA], queries: &[RGBA], kind: &str) {
         Some(queries_v.iter().map(|q| p.find(*q)).collect::<Vec<_>>())
     });
     let Some(res) = res else {
-        out.fail("nearest-colour lookup does not terminate", input, json!("an index per query"), json!("no answer within 4 s"));
+        out.fail("nearest-colour lookup does not terminate", input, json!("an index per query"), no_answer());
         return;
     };
     out.hist(&format!("kd:{kind}"));
@@ -368,7 +391,7 @@ fn run_oct(out: &mut Out, colors: &[RGBA], ops: &str, kind: &str) {
         (shape, pal, bound)
     });
     let Some(res) = res else {
-        out.fail("quantisation does not terminate (OcTree insert/prune/prune_until)", input, json!("a palette"), json!("no answer within 4 s"));
+        out.fail("quantisation does not terminate (OcTree insert/prune/prune_until)", input, json!("a palette"), no_answer());
         return;
     };
     out.hist(&format!("oct:{kind}"));
@@ -399,7 +422,7 @@ fn run_oct(out: &mut Out, colors: &[RGBA], ops: &str, kind: &str) {
             let only_until = !ops.is_empty() && ops.split(',').all(|o| o.parse::<usize>().map(|k| k >= distinct.len() && k >= 1).unwrap_or(false));
             if only_until && !colors.is_empty() {
                 let got: BTreeSet<Rgb> = prgb.iter().copied().collect();
-                if got != distinct || prgb.len() != distinct.len() {
+                if got != distinct {
                     out.fail("prune_until(k) loses colours although the distinct colours fit k", input.clone(),
                              json!({"distinct": distinct.len(), "colours": rgb_hex(&distinct.iter().copied().collect::<Vec<_>>())}),
                              json!({"palette_size": prgb.len(), "palette": rgb_hex(&prgb)}));
@@ -407,7 +430,7 @@ fn run_oct(out: &mut Out, colors: &[RGBA], ops: &str, kind: &str) {
             }
             if distinct.len() <= 8 && ops.is_empty() {
                 let got: BTreeSet<Rgb> = prgb.iter().copied().collect();
-                if got != distinct || prgb.len() != distinct.len() {
+                if got != distinct {
                     out.fail("unpruned octree palette is not the set of inserted colours", input.clone(),
                              json!(rgb_hex(&distinct.iter().copied().collect::<Vec<_>>())), json!(rgb_hex(&prgb)));
                 }
@@ -465,6 +488,20 @@ fn composite(bg: RGBA, c: RGBA) -> Rgb {
     if c.to_rgba()[3] < 255 { bg.blend_over(c).to_rgb() } else { c.to_rgb() }
 }
 
+/// Does `from_image` look at pixel `j` of an `h`×`w` image when `k` colours are requested?  Observed, not
+/// computed: a uniform image with one marker pixel (two colours: never pruned) — the marker colour is in
+/// the palette iff that position is sampled.  `None`: no answer.
+fn position_sampled(h: usize, w: usize, k: usize, bg: Option<RGBA>, j: usize) -> Option<bool> {
+    let (a, b) = (RGBA::new(255, 0, 255, 255), RGBA::new(0, 255, 0, 255));
+    let mut data = vec![b; h * w];
+    data[j] = a;
+    let img = Image::from_parts(Arc::from(data.into_boxed_slice()), Shape::from(Size::new(h, w)));
+    match watched(move || img.quantize(k, false, bg).map(|(pal, _)| pal.colors().iter().any(|c| c.to_rgb() == [255, 0, 255]))) {
+        Some(Ok(Some(present))) => Some(present),
+        _ => None,
+    }
+}
+
 fn run_quant(out: &mut Out, case: &QuantCase, kind: &str) {
     let input = case.to_json();
     let full = Image::from_parts(
@@ -502,7 +539,7 @@ fn run_quant(out: &mut Out, case: &QuantCase, kind: &str) {
         })
     });
     let Some(res) = res else {
-        out.fail("quantisation does not terminate (Image::quantize)", input, json!("a palette and an index image"), json!("no answer within 4 s"));
+        out.fail("quantisation does not terminate (Image::quantize)", input, json!("a palette and an index image"), no_answer());
         return;
     };
     out.hist(&format!("quant:{kind}"));
@@ -510,12 +547,10 @@ fn run_quant(out: &mut Out, case: &QuantCase, kind: &str) {
     if case.crop.is_some() {
         out.hist("quant:cropped");
     }
-    // "small enough not to be subsampled": fewer than 200 pixels per requested colour
-    let not_sampled = k >= 1 && (h * w) as u128 / (k as u128 * 100) < 2;
-    let fits = distinct.len() <= k && not_sampled;
-    if !not_sampled {
-        out.hist("quant:subsampled");
-    }
+    // the distinct colours fit the request; whether the image is "small enough not to be subsampled" is
+    // not decided by a constant here but, when a colour is missing, by probing the implementation
+    // (`position_sampled`)
+    let fits = k >= 1 && distinct.len() <= k;
     if fits {
         out.hist("quant:fits");
     }
@@ -546,6 +581,7 @@ fn run_quant(out: &mut Out, case: &QuantCase, kind: &str) {
             let mut shown = Vec::with_capacity(idx.len());
             let mut all_exact = true;
             let mut reported = false;
+            let mut lossless_judged = false;
             for (p, i) in idx.iter().enumerate() {
                 let src = px[p];
                 let pos = json!({"row": p / w, "col": p % w, "pixel": rgb_hex(&[src])});
@@ -583,14 +619,44 @@ fn run_quant(out: &mut Out, case: &QuantCase, kind: &str) {
                         reported = true;
                     }
                 }
-                if fits && d != 0 && !reported {
-                    out.fail(
-                        "image whose colours fit the palette is not reproduced exactly",
-                        input.clone(),
-                        json!({"at": pos, "distinct_colours": distinct.len()}),
-                        json!({"index": i, "color": rgb_hex(&[prgb[*i]]), "palette": rgb_hex(&prgb)}),
-                    );
-                    reported = true;
+                if fits && d != 0 && !reported && !lossless_judged {
+                    lossless_judged = true;
+                    // which colour of the image is missing from the palette?
+                    let missing: Option<Rgb> =
+                        if !prgb.contains(&src) { Some(src) } else { distinct.iter().copied().find(|c| !prgb.contains(c)) };
+                    let verdict = match missing {
+                        // every colour is available (so every dithering error is zero): must be exact
+                        None => Some("every distinct colour is in the palette"),
+                        Some(c) => {
+                            // is the image subsampled?  ask the implementation: a marker pixel at a position of
+                            // the missing colour in an otherwise uniform image of the same size, same k
+                            let positions: Vec<usize> = px.iter().enumerate().filter(|(_, x)| **x == c).map(|(j, _)| j).take(48).collect();
+                            let mut all = true;
+                            for j in positions {
+                                match position_sampled(h, w, k, bg, j) {
+                                    Some(true) => {}
+                                    _ => {
+                                        all = false;
+                                        break;
+                                    }
+                                }
+                            }
+                            if all { Some("the implementation samples every probed position of the missing colour") } else { None }
+                        }
+                    };
+                    match verdict {
+                        Some(why) => {
+                            out.fail(
+                                "image whose colours fit the palette is not reproduced exactly",
+                                input.clone(),
+                                json!({"at": pos, "distinct_colours": distinct.len(), "not_subsampled_because": why}),
+                                json!({"index": i, "color": rgb_hex(&[prgb[*i]]), "palette": rgb_hex(&prgb),
+                                       "missing": missing.map(|c| rgb_hex(&[c]))}),
+                            );
+                            reported = true;
+                        }
+                        None => out.hist("quant:fits-but-subsampled(probed)"),
+                    }
                 }
                 shown.push(show_find(&prgb, src, *i));
             }
@@ -611,12 +677,18 @@ fn gen_image(rng: &mut Rng, height: usize, width: usize, nc: usize, alpha: bool)
     let style = rng.below(5);
     let mut cols = gen_colors(rng, nc, style);
     if alpha {
+        let mut twins = Vec::new();
         for c in cols.iter_mut() {
             if rng.chance(1, 2) {
                 let [r, g, b, _] = c.to_rgba();
-                *c = RGBA::new(r, g, b, *rng.pick(&[0u8, 1, 64, 127, 128, 200, 254]));
+                *c = RGBA::new(r, g, b, *rng.pick(&[0u8, 1, 64, 127, 128, 200, 253, 254, 254]));
+                if rng.chance(1, 2) {
+                    // the same colour, opaque: competes with the composited one for the nearest entry
+                    twins.push(RGBA::new(r, g, b, 255));
+                }
             }
         }
+        cols.extend(twins);
     }
     let mode = rng.below(3);
     (0..height * width)
@@ -717,6 +789,9 @@ fn main() {
         return;
     }
 
+    if cfg.thorough {
+        LONG_SECS.store(120, SeqCst);
+    }
     let mut rng = Rng::new(cfg.seed);
     let scale: usize = if cfg.thorough { 60 } else { 5 };
 
@@ -767,6 +842,47 @@ fn main() {
         for bg in [None, Some(RGBA::new(255, 255, 255, 255)), Some(RGBA::new(10, 200, 90, 255)), Some(RGBA::new(10, 200, 90, 100))] {
             run_quant(&mut out, &QuantCase { height: 3, width: 4, data: tr.clone(), crop: None, k: 16, dither: false, bg }, "corner");
             run_quant(&mut out, &QuantCase { height: 3, width: 4, data: tr.clone(), crop: Some((0, 3, 1, 3)), k: 4, dither: true, bg }, "corner");
+        }
+        // almost opaque / almost transparent pixels whose composited colour is 1 unit away from a colour
+        // that is itself in the image: compositing in `from_image` and in `quantize` must agree
+        {
+            let mut made = 0;
+            'outer: for bgc in [[255u8, 255, 255], [0, 0, 0], [255, 0, 0], [0, 40, 255]] {
+                for raw in [[100u8, 100, 100], [30, 200, 90], [200, 60, 10], [128, 128, 128], [10, 10, 240], [250, 250, 5]] {
+                    for al in [254u8, 253, 1, 2] {
+                        let bgr = RGBA::new(bgc[0], bgc[1], bgc[2], 255);
+                        let p = RGBA::new(raw[0], raw[1], raw[2], al);
+                        let v = composite(bgr, p);
+                        let near: Rgb = if al >= 128 { raw } else { bgc };
+                        if v == near || dist(v, near) > 12 {
+                            continue; // compositing did not move the colour off its neighbour (or too far)
+                        }
+                        // image: the translucent pixel, its opaque neighbour colour, the composited colour's
+                        // other neighbours, two far fillers
+                        let mut cols: Vec<RGBA> = vec![p, RGBA::new(near[0], near[1], near[2], 255)];
+                        for ch in 0..3 {
+                            let mut n1 = v;
+                            n1[ch] = n1[ch].wrapping_add(1).max(1);
+                            cols.push(RGBA::new(n1[0], n1[1], n1[2], 255));
+                        }
+                        cols.push(RGBA::new(255 - bgc[0], 255 - bgc[1], 120, 255));
+                        cols.push(RGBA::new(7, 99, 201, 255));
+                        let mut data = cols.clone();
+                        data.push(p);
+                        let dset: BTreeSet<Rgb> = data.iter().map(|c| composite(bgr, *c)).collect();
+                        for dither in [false, true] {
+                            for k in [dset.len(), dset.len() + 3] {
+                                run_quant(&mut out, &QuantCase { height: 2, width: 4, data: data.clone(), crop: None, k, dither, bg: Some(bgr) }, "alpha-edge");
+                            }
+                        }
+                        made += 1;
+                        if made >= 24 {
+                            break 'outer;
+                        }
+                    }
+                }
+            }
+            out.extra("alpha_edge_cases", json!(made));
         }
         // around the subsampling threshold h*w/(100k) = 2 with k = 1: 199, 200, 201 pixels
         for n in [199usize, 200, 201, 399, 400] {
@@ -846,5 +962,7 @@ fn main() {
         let (case, kind) = gen_quant(&mut rng, i >= n_small);
         run_quant(&mut out, &case, kind);
     }
+    out.extra("watchdog", json!({"slow_cases_rerun_ok": SLOW_RERUN_OK.load(SeqCst), "hung": HUNG.load(SeqCst),
+                                 "first_limit_s": CASE_TIMEOUT.as_secs(), "long_limit_s": LONG_SECS.load(SeqCst)}));
     out.finish(rule);
 }
